@@ -101,6 +101,12 @@ def check_property(prop, tier):
                                    "obligations": a["obligations"], "all_discharged": a["ok"], "from_cache": a["cached"], "wall_s": a.get("wall_s")})
         except Exception as e:  # noqa
             v.cov["parts"].append({"part": "apalache:StampInd", "what": "extra; not run", "error": str(e)[:300]})
+        try:
+            t = run_tlaps_stamp()
+            v.cov["parts"].append({"part": "tlaps:StampLemmas", "what": "EXTRA, no verdict depends on it: TLAPS proves, for every MAXSTAMP, that remove+reuse yields the next stamp (larger than all earlier ones), that removed stamps differ from every earlier live stamp, and that a slot is retired exactly when MAXSTAMP is removed",
+                                   "obligations": t["obligations"], "discharged": t["discharged"], "all_proved": t["ok"], "checker_cmd": t["checker_cmd"], "from_cache": t["cached"]})
+        except Exception as e:  # noqa
+            v.cov["parts"].append({"part": "tlaps:StampLemmas", "what": "extra; not run", "error": str(e)[:300]})
 
     if prop in OUT_PROPS:
         for cfg in bundle_cfgs:
